@@ -297,6 +297,9 @@ def run(ctx):
     ctx.rule("C08.R7", "the reader schema is dropped (set to None) only at the named top-level sites and under their conditions; below the top level it is only resolved (match_schemas) or passed on", floor=4)
     reader_drop_discipline(ctx, a, "C08.R7")
 
+    res_funcs = {f.name for f in rmod.all_funcs if f.name in ("match_schemas", "match_types", "_match_reader_union", "read_record", "read_union", "read_enum", "read_data", "read_array", "read_map", "read_fixed") or f.name.startswith("skip_")}
+    ctx.borrow("C17", {"C17.R1": "C08.R10"}, "what a reader schema resolves to is a function of the writer and reader schemas alone: resolution code that stores into the caller's name tables (caches, indexes) makes the result depend on what was read before", only=lambda o: o["where"].split(":")[1].split(".")[0] in res_funcs if o.get("where", "").count(":") >= 1 else False)
+
 
 def _past_chain(mt, out):
     """the evaluation left the literal if/elif chain (reached the name-table lookup / final return)"""
@@ -407,3 +410,4 @@ def reader_drop_discipline(ctx, a, rule):
                     continue
                 ctx.unrecognised(rule, inst, f.where(n), "reader schema replaced by an unknown value")
     return sites
+
